@@ -2028,6 +2028,8 @@ impl ToBitStream for SeekTable {
         self.points
             .iter()
             .try_for_each(|point| match last_offset.as_mut() {
+                // u64::MAX marks a placeholder, so a defined point can't use it
+                _ if point.sample_offset() == Some(u64::MAX) => Err(Error::InvalidSeekTablePoint),
                 None => {
                     last_offset = point.sample_offset();
                     w.build(point).map_err(Error::Io)
